@@ -47,7 +47,7 @@ def finalize(agg, tier):
     out = []
     for name in ("tapes_enumerated", "ranges_decided", "restart_checked", "bit_sizes_decided", "shuffle_orders_decided",
                  "sample_decided", "consumer_keys", "consumer_rejections_seen", "hook_random_range_calls", "hook_random_calls",
-                 "long_rejection_chains_checked"):
+                 "long_rejection_chains_checked", "large_range_probes"):
         if not c.get(name):
             out.append("deciding counter %s is zero" % name)
     return out
@@ -130,8 +130,61 @@ def decide_uniform(ctx, name, f, domain, desc, restart_samples=2):
     return ok, lvl
 
 
+def big_range_probes(ctx, name, fn):
+    """Ranges too large to enumerate (spans that a double cannot represent, word boundaries, 1024-bit spans): single tapes
+    are replayed.  The map from the first draw to the candidate is CALIBRATED first (a tape that encodes 12345 big-endian in
+    ceil(bits/8) bytes must give lo + 12345 and consume exactly those bytes; otherwise the sampler reads its entropy another
+    way and is left to the enumerating checks).  Then, with n values in the range: the tapes n-1 and n-2 must be accepted
+    (value hi, hi-1: the top of the range can come out), the tapes n and n+1 must be rejected (more entropy is read and the
+    all-zero continuation gives lo), and nothing may raise."""
+    from vf import entropy
+    for span in ((1 << 53) + 1, (1 << 53) + 3, (1 << 64) + 1025, (1 << 64) + 3000, (1 << 100) + 12345, (1 << 64) - 1, (1 << 128) + 5,
+                 (1 << 1024) + 7, (1 << 2048) + 10 ** 9):
+        lo = ctx.rng.choice([0, 0, 5, 10 ** 6])
+        hi = lo + span - 1
+        bits = (span - 1).bit_length()
+        nb = (bits + 7) // 8
+
+        def replay(cand):
+            t = entropy.Tape(cand.to_bytes(nb, "big"), fill=0)
+            try:
+                return ("ok", fn(lo, hi, t), t.consumed)
+            except Exception as e:      # noqa
+                return ("exc", e, t.consumed)
+        cal = replay(12345)
+        if cal[0] == "exc":
+            ctx.check(False, "uniform:%s:exception-%s:large-range" % (name, type(cal[1]).__name__), "the sampler raised on a large range",
+                      {"lo": lo, "span_bits": span.bit_length(), "exc": repr(cal[1])[:160]})
+            continue
+        if cal[1:] != (lo + 12345, nb):
+            ctx.count("large_range_mapping_unknown:" + name)
+            continue
+        ctx.case((name, "large-range", span.bit_length(), span % 4096))
+        ctx.count("large_range_probes")
+        for tname, cand, accepted in (("n-1", span - 1, True), ("n-2", span - 2, True), ("n", span, False), ("n+1", span + 1, False)):
+            if cand >> bits:
+                continue                # does not fit the candidate width: the encoding would be masked
+            r = replay(cand)
+            w = lambda: {"sampler": name, "lo": lo, "span": hex(span), "candidate_bytes": nb, "tape": tname,
+                         "outcome": repr(r[1])[:100], "entropy_bytes_read": r[2]}
+            if r[0] == "exc":
+                ctx.check(False, "uniform:%s:exception-%s:large-range" % (name, type(r[1]).__name__), "the sampler raised on a large range", w)
+                continue
+            ctx.check(lo <= r[1] <= hi, "uniform:%s:out-of-range" % name, "a value outside the documented range was returned", w)
+            if accepted:
+                ctx.check(r[1] == lo + cand and r[2] == nb, "uniform:%s:value-never-produced:large-range" % name,
+                          "on a large range the draw that encodes %s was not accepted as it is: the top of the range cannot be produced" % tname, w)
+            else:
+                ctx.check(r[2] > nb and r[1] == lo, "uniform:%s:biased:large-range" % name,
+                          "on a large range the draw that encodes %s (beyond the range) was not rejected and drawn again" % tname, w)
+
+
 def w_range_uniform(spec, ctx, entropy):
     S = _samplers()
+    if spec.get("sizes") and spec["sizes"][0] == spec.get("first_size", spec["sizes"][0]):
+        for v_ in {"integer_random_range": ["integer_random_range"], "strongrandom_randrange": ["strongrandom_randrange", "strongrandom_randint"],
+                   "number_getRandomRange": ["number_getRandomRange"]}[spec["sampler"]]:
+            big_range_probes(ctx, v_, S[v_])
     name = spec["sampler"]
     variants = {"integer_random_range": ["integer_random_range", "integer_random_range_excl"],
                 "strongrandom_randrange": ["strongrandom_randrange", "strongrandom_randint"],
@@ -312,10 +365,16 @@ def w_consumers(spec, ctx, entropy):
             for tname, data in tapes.items():
                 seed = rng.getrandbits(32)
                 t1, t2 = fresh_tape(data, seed), fresh_tape(data, seed)
-                k1 = ECC.generate(curve=curve, randfunc=t1)
-                k2 = ECC.generate(curve=curve, randfunc=t2)
-                d = int(k1.d)
                 ctx.case(("ECC.generate", curve, tname))
+                try:
+                    k1 = ECC.generate(curve=curve, randfunc=t1)
+                    k2 = ECC.generate(curve=curve, randfunc=t2)
+                except Exception as e:      # noqa
+                    ctx.check(False, "consumer:ECC.generate:exception-" + type(e).__name__,
+                              "key generation raised under an entropy tape (every tape must lead to a key: out-of-range draws are "
+                              "rejected and drawn again)", {"curve": curve, "tape": tname, "tape_bytes": data.hex(), "exc": repr(e)[:200]})
+                    continue
+                d = int(k1.d)
                 w = lambda: {"curve": curve, "tape": tname, "tape_bytes": data.hex(), "d": hex(d), "requests": t1.log[:8]}
                 ctx.check(1 <= d <= n - 1, "consumer:ECC.generate:scalar-out-of-range",
                           "private scalar outside [1, order-1]", w)
